@@ -96,34 +96,7 @@ def load_known(pid):
     return [e for e in data.get("findings", []) if e["property"] == pid]
 
 
-def _subset_match(pat, obj):
-    for k, want in pat.items():
-        got = obj.get(k)
-        if isinstance(want, list):
-            if got not in want:
-                return False
-        elif got != want:
-            return False
-    return True
-
-
-def match_known(v, ent):
-    m = ent.get("match")
-    if not m:
-        return False
-    if not _subset_match(m.get("signature", {}), v.get("signature", {})):
-        return False
-    feats = set(v.get("features") or [])
-    if not set(m.get("features_required", [])) <= feats:
-        return False
-    if set(m.get("features_forbidden", [])) & feats:
-        return False
-    for group in m.get("features_any", []):
-        if not (set(group) & feats):
-            return False
-    if "features_allowed" in m and not feats <= set(m["features_allowed"]):
-        return False
-    return True
+from .known import classify, match_known  # noqa: E402
 
 
 # ------------------------------------------------------------------ main entry
@@ -154,11 +127,12 @@ def run_check(pid, tier, seed, workers=None, cases=None, quiet=False):
     jobs = []
     for w in range(W):
         jobs.append(({"property": pid, "mode": "sweep", "seed": seed, "first": w, "last": n,
-                      "step": W, "tier_cfg": cfg, "shrink_s": cfg.get("shrink_s", 15)}, hs[w]))
+                      "step": W, "tier_cfg": cfg, "shrink_s": cfg.get("shrink_s", 15),
+                      "known": known}, hs[w]))
     # determinism echo: the first K cases again, in another interpreter, other hash seed
     K = min(cfg.get("echo", 48), n)
     jobs.append(({"property": pid, "mode": "sweep", "seed": seed, "first": 0, "last": K,
-                  "step": 1, "tier_cfg": cfg, "shrink_s": 0}, 987654321))
+                  "step": 1, "tier_cfg": cfg, "shrink_s": 0, "known": known}, 987654321))
     # directed cases of the known-findings file
     directed = [e for e in known if e.get("directed")]
     if directed:
@@ -251,29 +225,15 @@ def run_check(pid, tier, seed, workers=None, cases=None, quiet=False):
                     new_viol.append(v)
     by_sig = {}
     for v in violations:
-        by_sig.setdefault(v["sig_id"], []).append(v)
+        kf = v["kf"] if "kf" in v else classify(v, known)
+        if kf:
+            kf_seen[kf] = kf_seen.get(kf, 0) + v.get("count_in_worker", 1)
+        else:
+            by_sig.setdefault(v["sig_id"], []).append(v)
     for sig_id, lst in sorted(by_sig.items()):
         rep = min(lst, key=lambda v: v.get("minimised_case_size", 10 ** 9))
-        total = sum(v.get("count_in_worker", 1) for v in lst)
-        matched = None
-        for ent in known:
-            if ent["status"] == "known" and all(match_known(v, ent) for v in lst):
-                matched = ent
-                break
-        if matched is None:
-            # violations of one coarse signature may mix a known and an unknown cause
-            rest = [v for v in lst if not any(e["status"] == "known" and match_known(v, e) for e in known)]
-            for v in lst:
-                for e in known:
-                    if e["status"] == "known" and match_known(v, e):
-                        kf_seen[e["id"]] = kf_seen.get(e["id"], 0) + v.get("count_in_worker", 1)
-                        break
-            if rest:
-                rep = min(rest, key=lambda v: v.get("minimised_case_size", 10 ** 9))
-                rep["total_count"] = sum(v.get("count_in_worker", 1) for v in rest)
-                new_viol.append(rep)
-        else:
-            kf_seen[matched["id"]] = kf_seen.get(matched["id"], 0) + total
+        rep["total_count"] = sum(v.get("count_in_worker", 1) for v in lst)
+        new_viol.append(rep)
 
     for ent in known:
         if ent["status"] == "known" and ent["id"] in kf_seen:
